@@ -43,6 +43,11 @@ pub struct Spec {
     pub tail_share: Vec<(String, String)>,
     /// exact number of padding bytes behind the k-th segment in file order (empty: align to 4 and leave 4 bytes)
     pub file_pads: Vec<u32>,
+    /// p_paddr of the PT_LOAD entries where it differs from p_vaddr (missing entries: equal to p_vaddr)
+    pub paddrs: Vec<Option<u32>>,
+    /// p_align of the PT_LOAD entries (missing entries: 4) and e_entry (None: H'100)
+    pub aligns: Vec<u32>,
+    pub entry: Option<u32>,
 }
 
 fn be16(v: &mut Vec<u8>, x: u16) {
@@ -196,7 +201,7 @@ impl Spec {
         be16(&mut f, 2);
         be16(&mut f, 46);
         be32(&mut f, 1);
-        be32(&mut f, 0x100); // e_entry (the loader starts at the load base regardless)
+        be32(&mut f, self.entry.unwrap_or(0x100)); // e_entry (the loader starts at the load base regardless)
         be32(&mut f, phoff);
         be32(&mut f, shoff);
         be32(&mut f, 0x00810000);
@@ -214,11 +219,11 @@ impl Spec {
                     be32(&mut f, 1);
                     be32(&mut f, seg_off[*k]);
                     be32(&mut f, s.vaddr);
-                    be32(&mut f, s.vaddr);
+                    be32(&mut f, self.paddrs.get(*k).copied().flatten().unwrap_or(s.vaddr));
                     be32(&mut f, s.filesz);
                     be32(&mut f, s.memsz);
                     be32(&mut f, self.load_flags.get(*k).copied().unwrap_or(7));
-                    be32(&mut f, 4);
+                    be32(&mut f, self.aligns.get(*k).copied().unwrap_or(4));
                 }
                 Ph::Other(ty, va, ms) => {
                     be32(&mut f, *ty);
@@ -293,6 +298,9 @@ impl Spec {
             "zero_runs": self.zero_runs.iter().map(|x| json!([x.0, x.1, x.2])).collect::<Vec<_>>(),
             "tail_share": self.tail_share.iter().map(|x| json!([x.0, x.1])).collect::<Vec<_>>(),
             "file_pads": self.file_pads,
+            "paddrs": self.paddrs,
+            "aligns": self.aligns,
+            "entry": self.entry,
             "nonload": self.nonload.iter().map(|x| json!([x.0, x.1, x.2, x.3])).collect::<Vec<_>>(),
             "file_order": self.file_order,
             "got": self.got.as_ref().map(|(a, e)| json!([a, e])),
@@ -318,6 +326,9 @@ impl Spec {
             fillers: v["fillers"].as_u64()? as usize,
             args: v["args"].as_str()?.to_string(),
             seed: u(&v["seed"])?,
+            aligns: v["aligns"].as_array().map(|a| a.iter().map(|x| u(x).unwrap_or(4)).collect()).unwrap_or_default(),
+            entry: v["entry"].as_u64().map(|y| y as u32),
+            paddrs: v["paddrs"].as_array().map(|a| a.iter().map(|x| x.as_u64().map(|y| y as u32)).collect()).unwrap_or_default(),
             file_pads: v["file_pads"].as_array().map(|a| a.iter().map(|x| u(x).unwrap_or(0)).collect()).unwrap_or_default(),
             load_flags: v["load_flags"].as_array().map(|a| a.iter().map(|x| u(x).unwrap_or(7)).collect()).unwrap_or_default(),
             tail_share: v["tail_share"].as_array().map(|a| a.iter().map(|x| (x[0].as_str().unwrap_or("").to_string(), x[1].as_str().unwrap_or("").to_string())).collect()).unwrap_or_default(),
@@ -342,6 +353,9 @@ pub fn default_spec() -> Spec {
         zero_runs: Vec::new(),
         tail_share: Vec::new(),
         file_pads: Vec::new(),
+        paddrs: Vec::new(),
+        aligns: Vec::new(),
+        entry: None,
     }
 }
 
@@ -977,9 +991,38 @@ fn specs_three_segments(tier: Tier) -> Vec<Spec> {
     out
 }
 
+/// p_paddr differs from p_vaddr (the statement places a segment at load base + p_vaddr).  Files without a `.stack`
+/// section, so that nothing but the segments is written.
+fn specs_paddr_differs(tier: Tier) -> Vec<Spec> {
+    let d = default_spec();
+    let mut out = Vec::new();
+    for (i, l) in layouts(tier).into_iter().enumerate().take(40) {
+        for pat in 0..4u32 {
+            let mut s = d.clone();
+            s.file_order = (0..l.len()).collect();
+            s.got = l.iter().filter(|g| g.filesz >= 8).max_by_key(|g| g.filesz).map(|g| (g.vaddr + ((g.filesz - 8) / 2 & !3), vec![0x1274, 0x00be96ff]));
+            s.paddrs = l.iter().enumerate().map(|(k, g)| match pat {
+                0 => Some(0),
+                1 => Some(g.vaddr + 0x2000),
+                2 => Some(g.vaddr ^ 0x10),
+                _ => if k % 2 == 0 { Some(0x0001_0000 + 0x100 * k as u32) } else { None },
+            }).collect();
+            // p_align and e_entry are free as well: segments are placed at p_vaddr whatever they say
+            s.aligns = l.iter().enumerate().map(|(k, _)| [0u32, 1, 4, 0x10, 0x1000, 0x10000][(k + i + pat as usize) % 6]).collect();
+            s.entry = Some([0u32, 0x100, 0x0041_6900, 0xffff_ffff][(i + pat as usize) % 4]);
+            s.segs = l.clone();
+            s.section_order = vec![0, 1, 3, 4]; // no .stack
+            s.seed = 7000 + i as u32 * 4 + pat;
+            out.push(s);
+        }
+    }
+    out
+}
+
 fn specs_for(prop: &str, tier: Tier) -> Vec<Spec> {
     let mut all = specs(tier);
     if prop == "C11" {
+        all.extend(specs_paddr_differs(tier));
         all.extend(specs_three_segments(tier));
     }
     if prop == "C11" {
@@ -993,7 +1036,7 @@ fn elf_units(prop: &'static str, tier: Tier) -> Vec<Unit> {
     let n = all.len() as u64;
     let chunks = 64u64.min(n);
     let dom = format!(
-        "{} generated ELF32-BE files, factorised so that each factor is a full product around a default layout: segment layouts (1-4 PT_LOAD, sizes/gaps from a small set incl. 0/1/3/4/0x71/0x1271, filesz <= memsz, file offsets not in address order), 0-2 non-load program headers in every position incl. last, all 120 orders of .shstrtab/.got/.stack/.symtab/.strtab x filler sections, .got of 0-3 and 64 entries at aligned/unaligned positions with carrying values, stack sizes 0-64 KiB, empty PT_LOAD entries sharing an address with / inside / between other segments, (C11 only: files without .stack whose last segment and GOT reach the last bytes of DRAM; three file-backed segments in all 6 table x 6 file x 6 memory orders with sizes, file paddings and memory gaps from one small set so that they coincide), symbol tables of 1-200 symbols with ___exit first/middle/last among decoys and names that extend ___exit, argument strings (all separator patterns x 0-3 words, 32 words, every printable ASCII character)",
+        "{} generated ELF32-BE files, factorised so that each factor is a full product around a default layout: segment layouts (1-4 PT_LOAD, sizes/gaps from a small set incl. 0/1/3/4/0x71/0x1271, filesz <= memsz, file offsets not in address order), 0-2 non-load program headers in every position incl. last, all 120 orders of .shstrtab/.got/.stack/.symtab/.strtab x filler sections, .got of 0-3 and 64 entries at aligned/unaligned positions with carrying values, stack sizes 0-64 KiB, empty PT_LOAD entries sharing an address with / inside / between other segments, (C11 only: files without .stack whose last segment and GOT reach the last bytes of DRAM; p_paddr different from p_vaddr in four patterns, p_align in 0, 1, 4, H'10, H'1000, H'10000 and four e_entry values; three file-backed segments in all 6 table x 6 file x 6 memory orders with sizes, file paddings and memory gaps from one small set so that they coincide), symbol tables of 1-200 symbols with ___exit first/middle/last among decoys and names that extend ___exit, argument strings (all separator patterns x 0-3 words, 32 words, every printable ASCII character)",
         n
     );
     let mk = |name: &str, dom: &str, trace: bool| Unit::new(name, chunks, dom, move |ctx, chunk| {
